@@ -22,3 +22,10 @@ Check ordered_finalize_never_fails :
         anc g f1 h1 -> anc g f2 h2 -> anc g f1 f2 \/ anc g f2 f1) ->
     braid_L1 g hs <> BParFin.
 Print Assumptions ordered_finalize_never_fails.
+
+(** The function the correspondence run evaluates (tabulated max_cut / jump) is the model. *)
+From Aranya Require Import proofs.BraidFast.
+Theorem braid_fast_eq : braid_fast_eq_stmt.
+Proof. exact braid_fast_eq_proof. Qed.
+Check braid_fast_eq : forall (g : graph) (hs : list N), braid_fast g hs = braid_L1 g hs.
+Print Assumptions braid_fast_eq.
